@@ -26,8 +26,8 @@ FUNCTIONS = [
 ]
 MUST_REACH = ["fetch.FetchAtt.body", "fetch.FetchAtt._body", "fetch.FetchAtt._single_section", "search.SearchContext.msg_size", "generator.msg_as_bytes", "generator.msg_headers_as_bytes"]
 BOUNDS = {
-    "quick": {"messages": "menu of 9 message texts (plain, 8-bit, multipart, nested, message/rfc822, empty body, missing final newline, LF endings, dot lines)", "partial": "symbolic offsets 0..len+2", "sections": "[], HEADER, TEXT, 1, 1.MIME, 2"},
-    "thorough": {"messages": "same menu x 3 header variants"},
+    "quick": {"messages": "menu of 9 message texts (plain, 8-bit, multipart, nested, message/rfc822, empty body, missing final newline, LF endings, dot lines)", "partial": "symbolic offset and count 0..7", "sections": "[], HEADER, TEXT, 1, 1.MIME, 2"},
+    "thorough": {"partial": "symbolic offset and count 0..12"},
 }
 SYMBOLIC = ["partial offset and count", "message selector"]
 REALISED = ["message selector"]
@@ -71,11 +71,14 @@ def _lit(resp, name):
 
 def items(m: int, o: int, n: int) -> bool:
     """
-    pre: 0 <= m < 9 and 0 <= o <= 12 and 0 <= n <= 12
+    pre: 0 <= m < 9 and 0 <= o <= core.PARAMS.get("omax", 12) and 0 <= n <= core.PARAMS.get("omax", 12)
     pre: core.PARAMS.get("m") is None or m == core.PARAMS["m"]
     post: _
     """
     return held(_items, {"m": core.pick(m, 0, 9), "o": o, "n": n})
+
+
+_ITEMS = {}
 
 
 def _items(m, o, n):
@@ -83,13 +86,50 @@ def _items(m, o, n):
     from asimap.search import SearchContext
 
     tag = "items"
+    if m not in _ITEMS:
+        _prepare_items(m)
+    if isinstance(_ITEMS[m], BaseException):
+        raise _ITEMS[m]
+    mb, whole = _ITEMS[m]
+    reached()
+    # the partial is exactly that slice (symbolic o, n; FetchAtt driven directly on the same message)
+    ctx = SearchContext(mb, 2, 1, 1, 3)
+    fa = F.FetchAtt(F.FetchOp.BODY, section=[], partial=(o, n), peek=True)
+    out = fa.fetch(ctx)
+    j = out.find(b"}\r\n")
+    head = out[:j]
+    cnt = int(head[head.index(b"{") + 1 :])
+    sl = out[j + 3 :]
+    check(cnt == len(sl), f"C16/{tag}/partial_literal_count_differs", o=o, n=n)
+    check(sl == whole[o : o + n], f"C16/{tag}/partial_is_not_the_requested_slice", o=o, n=n, got=repr(sl), expected=repr(whole[o : o + n]))
+    check(head.startswith(b"BODY[]<") and head[: head.index(b" ")] == b"BODY[]<%d>" % o, f"C16/{tag}/partial_item_name_wrong", head=repr(head))
+
+
+def _prepare_items(m):
+    try:
+        _ITEMS[m] = _items_concrete(m)
+    except (core.Fail, core.KnownHit) as e:
+        _ITEMS[m] = e
+
+
+def setup(params):
+    """
+    The whole-message part of `items` involves no symbolic value: it runs once per worker, before
+    the symbolic exploration starts (inside it, CrossHair would see a first path that differs from
+    the later ones), and its verdict is re-raised on every path.
+    """
+    if params.get("m") is not None and "via" not in params:
+        _prepare_items(params["m"])
+
+
+def _items_concrete(m):
+    tag = "items"
     w = World()
     TREE.real_messages = True
     mb = w.mailbox("inbox", [2], [3], {"Seen": {2}}, contents=[MENU[m]], mtimes=[1700000000])
     S = w.session("S")
     S.select_direct(mb)
     r, data, ok, why, resp = _fetch(w, S, "(RFC822.SIZE BODY.PEEK[] BODY.PEEK[HEADER] BODY.PEEK[TEXT])")
-    reached()
     check(r["status"] == "ok" and r["result"][0] == "ok", f"C16/{tag}/fetch_failed", result=repr(r["result"]), m=m)
     check(ok, f"C16/{tag}/response_not_wellformed", why=why)
     size = _lit_num(resp, "RFC822.SIZE")
@@ -108,18 +148,8 @@ def _items(m, o, n):
     # repeated fetch is byte-identical
     r3, data3, ok3, why3, resp3 = _fetch(w, S, "(RFC822.SIZE BODY.PEEK[] BODY.PEEK[HEADER] BODY.PEEK[TEXT])")
     check(data3 == data, f"C16/{tag}/repeated_fetch_differs", m=m)
-    # the partial is exactly that slice (symbolic o, n; FetchAtt driven directly on the same message)
-    ctx = SearchContext(mb, 2, 1, 1, 3)
-    fa = F.FetchAtt(F.FetchOp.BODY, section=[], partial=(o, n), peek=True)
-    out = fa.fetch(ctx)
-    j = out.find(b"}\r\n")
-    head = out[:j]
-    cnt = int(head[head.index(b"{") + 1 :])
-    sl = out[j + 3 :]
-    check(cnt == len(sl), f"C16/{tag}/partial_literal_count_differs", o=o, n=n)
-    check(sl == whole[o : o + n], f"C16/{tag}/partial_is_not_the_requested_slice", o=o, n=n, got=repr(sl), expected=repr(whole[o : o + n]))
-    check(head.startswith(b"BODY[]<") and head[: head.index(b" ")] == b"BODY[]<%d>" % o, f"C16/{tag}/partial_item_name_wrong", head=repr(head))
     w.shutdown()
+    return mb, whole
 
 
 def _lit_num(resp, name):
@@ -256,6 +286,7 @@ def key_reuse(m1: int, m2: int, via: int, pre: bool) -> bool:
     """
     pre: 0 <= m1 < 9 and 0 <= m2 < 9 and 0 <= via <= 2
     pre: core.PARAMS.get("via") is None or via == core.PARAMS["via"]
+    pre: core.PARAMS.get("m1") is None or m1 == core.PARAMS["m1"]
     post: _
     """
     return held(_key_reuse, {"m1": core.pick(m1, 0, 9), "m2": core.pick(m2, 0, 9), "via": core.pick(via, 0, 3), "pre": bool(core.pick(int(pre), 0, 2))})
@@ -345,14 +376,15 @@ def jobs(tier):
     T = 400 if q else 1500
     js = []
     for m in range(9):
-        js.append({"name": f"items[m={m}]", "fn": "items", "params": {"m": m}, "timeout": T, "per_path": 120})
+        js.append({"name": f"items[m={m}]", "fn": "items", "params": {"m": m, "omax": 7 if q else 12}, "timeout": T, "per_path": 120})
     js += [
         {"name": "copy_identity", "fn": "copy_identity", "params": {}, "timeout": T, "per_path": 120},
         {"name": "append_fidelity", "fn": "append_fidelity", "params": {}, "timeout": T, "per_path": 120},
         {"name": "desugar", "fn": "desugar", "params": {}, "timeout": 120, "per_path": 60},
     ]
     for via in (0, 1, 2):
-        js.append({"name": f"key_reuse[via={via}]", "fn": "key_reuse", "params": {"via": via}, "timeout": T, "per_path": 120})
+        for m1 in range(9):
+            js.append({"name": f"key_reuse[via={via},m1={m1}]", "fn": "key_reuse", "params": {"via": via, "m1": m1}, "timeout": T, "per_path": 120})
     return js
 
 
